@@ -333,14 +333,12 @@ static bool EvalChecksig(ScriptExecutionEnvironment& env, const valtype& sig, co
     std::string sig_str = HexStr(sig);
     std::string pub_str = HexStr(pubkey);
     if (pretend_valid_pubkeys.count(pubkey)) {
-        success = pretend_valid_map.count(sig) && pretend_valid_map.at(sig) == pubkey;
+        success = pretend_valid_map.count({sig, pubkey}) > 0;
         if (success) {
             return true;
         }
-        fprintf(stderr, "note: pretend signature mismatch: got %s=%s, expected %s=%s\n",
-            sig_str.c_str(), pub_str.c_str(),
-            pretend_valid_map.count(sig) ? HexStr(pretend_valid_map.at(sig)).c_str() : "<null>",
-            pub_str.c_str()
+        fprintf(stderr, "note: pretend signature mismatch: %s is not listed as a signature for %s\n",
+            sig_str.c_str(), pub_str.c_str()
         );
     }
     if (sigversion == SigVersion::TAPROOT) {
@@ -1194,7 +1192,7 @@ bool StepScript(ScriptExecutionEnvironment& env, CScript::const_iterator& pc, CS
                         btc_sign_logf("- got key %s\n", pub_str.c_str());
                         bool fOk;
                         if (pretend_valid_pubkeys.count(vchPubKey)) {
-                            fOk = pretend_valid_map.count(vchSig) && pretend_valid_map.at(vchSig) == vchPubKey;
+                            fOk = pretend_valid_map.count({vchSig, vchPubKey}) > 0;
                             if (!fOk) btc_sign_logf("- [mock] wrong pubkey for sig; marking as failed\n");
                         } else {
                             // Note how this makes the exact order of pubkey/signature evaluation
